@@ -224,9 +224,27 @@ bool ComponentEntity::replaceComponent(size_t index, const ComponentPtr &newComp
 {
     bool status = false;
     auto oldComponent = component(index);
-    ParentedEntityPtr parent = nullptr;
-    if (oldComponent != nullptr) {
-        parent = oldComponent->parent();
+    if ((oldComponent == nullptr) || (newComponent == nullptr)) {
+        return false;
+    }
+    if (newComponent == oldComponent) {
+        return true;
+    }
+
+    ParentedEntityPtr parent = oldComponent->parent();
+
+    // The new component cannot be this entity or one of its ancestors, and it
+    // moves here from wherever it was.
+    auto thisComponent = dynamic_cast<Component *>(this);
+    if ((thisComponent != nullptr) && ((thisComponent == newComponent.get()) || thisComponent->hasAncestor(newComponent))) {
+        return false;
+    }
+    if (newComponent->hasParent()) {
+        if (newComponent->parent() == parent) {
+            // Already a child of this entity: that is not a replacement.
+            return false;
+        }
+        removeComponentFromEntity(newComponent->parent(), newComponent);
     }
 
     if (removeComponent(index)) {
